@@ -12,7 +12,7 @@ EXPLANATION = (
     "(R2) ACCUMULATE - a byte accumulator grows only by len_utf8 of the scanned character, a UTF-16 column only by "
     "len_utf16, a line counter only by one on the '\\n' edge, a code-point counter only by one per character. "
     "Exactness, clamping and the round trip are value-level and are not decided.")
-EXPLANATION += ' Further clauses: (R3) CLAMP, (R4) RANGE-ENDS, (R5) SAME-TEXT - a span is converted with the text of its own document, change batches in order; (R6) SAME-VERSION (shared C15.R1/R6). (R7) LOADER-TEXT (shared C11.R1); R6 also shares C15.R3.'
+EXPLANATION += ' Further clauses: (R3) CLAMP, (R4) RANGE-ENDS, (R5) SAME-TEXT - a span is converted with the text of its own document, change batches in order; (R6) SAME-VERSION (shared C15.R1/R6). (R7) LOADER-TEXT (shared C11.R1); R6 also shares C15.R3. (R8) ENCODING - the announced position encoding is the constant UTF-16; (R9) LOCATION-PAIR - an edit is filed under the document its range was computed for.'
 TECHNIQUE = "static analysis: units (dimension) inference on MIR with declared signatures"
 
 SCOPE = [
